@@ -55,7 +55,7 @@ def ascii_pairs(full):
             for b in chars:
                 yield a + b
     else:
-        keys = '0afx_Z!@=/"\'\\ \n\r?<({\x00\x7f'
+        keys = '0x_!@=/"\'\\ \n?\x7f'
         for a in keys:
             for b in chars:
                 yield a + b
@@ -162,6 +162,14 @@ def escapes(rng, thorough):
     out += ['"\'"', "'\"'", '"\\\'"', "'\\\"'", '"a\'b\'c"', "'\\''", "'''", "''''", '"""', '"a""b"', "'a''b'",
             '"\\x00\\x01\\xfe\\xff"', '"\\0\\0"', '"Hello \\u{1F30E}"', '"tab\there"', '"cr\rhere"',
             '"\u00e9\u20ac\U00010348"', '"\\u{e9}\\u{20ac}\\u{10348}"', '"\ufeff"', '"\u2028"', '"\x85"']
+    for _ in range(4000 if thorough else 300):                                   # arbitrary Unicode scalar values
+        v = rng.choice([rng.randrange(0x80, 0x800), rng.randrange(0x800, 0x10000), rng.randrange(0x10000, 0x110000),
+                        rng.randrange(0, 0x110000)])
+        if 0xd800 <= v <= 0xdfff or v == 10:
+            continue
+        out.append('"' + chr(v) + '"')
+        out.append('"\\u{%x}"' % v)
+        out.append("'\\u{%x}'" % v)
     n = 3000 if thorough else 400
     items = (['\\' + c for c in SIMPLE] + ['\\x%02x' % v for v in (0, 1, 0x7f, 0x80, 0xff)] +
              ['\\u{%x}' % v for v in (0x41, 0x7f, 0x80, 0x7ff, 0x800, 0xffff, 0x10000, 0x10ffff)] +
